@@ -1,4 +1,5 @@
 import Sentinel.Lemmas.HotConc
+import Sentinel.Lemmas.HotConcCap
 /-!
 # C06 — Hot-parameter concurrency is capped per value and its counters conserved
 (property-level theorems; helper lemmas in `Sentinel/Lemmas/HotConc.lean`, model in `Sentinel/Model/HotConc.lean`)
@@ -7,8 +8,8 @@ Reading guide.  `init rules` is the state right after `hotspot.LoadRules(rules)`
 counter cache per valid rule); `run s ops` executes a history of `Op.entry id res args atts` / `Op.exit id` /
 `Op.flowBlock res` with the code-shaped definitions the correspondence driver executes against `core/hotspot` +
 `api.Entry`.  `St.live` is the ledger the property speaks about: the entries that were admitted and have not been
-exited yet, with the arguments they were admitted with (the code has no such list; `live_from_history` ties it to the
-history).  `r.sel res args atts` is the value rule `r` selects from an entry (`Val.nil`: the rule does not apply or the
+exited yet, with the arguments they were admitted with (the code has no such list; `admitted_counted`,
+`blocked_not_counted` and `args_stable` tie it to the history).  `r.sel res args atts` is the value rule `r` selects from an entry (`Val.nil`: the rule does not apply or the
 entry lacks the argument — such a request is not limited by the rule); `liveOf r v L` counts the entries of `L` on the
 rule's resource whose selected value is `v`; `cellOf t.cache v` is the in-flight figure the code keeps for `v`;
 `r.thrOf v` is the specific item for `v` if there is one, else the general threshold.
@@ -29,7 +30,31 @@ controller that has not evicted and every value: the cell equals the number of l
 theorem cell_eq_live (rules : List Rule) (ops : List Op) :
     ∀ t ∈ (run (init rules) ops).tcs, t.ev = false → ∀ v, v ≠ Val.nil →
       cellOf t.cache v = (liveOf t.rule v (run (init rules) ops).live : Int) :=
-  fun t ht hev v hv => inv_run _ ops (inv_init rules) t ht hev v hv
+  fun t ht hev v hv => (inv_run _ ops (inv_init rules)).1 t ht hev v hv
+
+/-- **no eviction below the capacity**: a controller that has been asked about at most `ParamsMaxCapacity`
+(default 4000) distinct values in the whole history — `valsOf r ops` lists the values rule `r` selects from the
+`entry`/`check` ops — has never evicted, so everything below applies to it. -/
+theorem no_evict_of_few_values (rules : List Rule) (ops : List Op) :
+    ∀ t ∈ (run (init rules) ops).tcs, (valsOf t.rule ops).dedup.length ≤ t.rule.cap → t.ev = false := by
+  intro t ht hcap
+  have hj := J_run ops (fun _ => []) (init rules) (by
+    intro t ht
+    simp only [init, load, List.mem_map] at ht
+    obtain ⟨r, _, rfl⟩ := ht
+    exact ⟨by simp [keys], by simp [keys], by simp⟩) t ht
+  cases hev : t.ev with
+  | false => rfl
+  | true =>
+    have := hj.2.2 hev
+    simp only [List.nil_append] at this
+    omega
+
+/-- conservation, stated on the history alone: at most `capacity` distinct values ⇒ cell = live -/
+theorem cell_eq_live_of_few_values (rules : List Rule) (ops : List Op) :
+    ∀ t ∈ (run (init rules) ops).tcs, (valsOf t.rule ops).dedup.length ≤ t.rule.cap → ∀ v, v ≠ Val.nil →
+      cellOf t.cache v = (liveOf t.rule v (run (init rules) ops).live : Int) :=
+  fun t ht hcap => cell_eq_live rules ops t ht (no_evict_of_few_values rules ops t ht hcap)
 
 /-- **returns to zero**: once every admitted entry has been exited, every cell is 0 -/
 theorem returns_to_zero (rules : List Rule) (ops : List Op) (hall : (run (init rules) ops).live = []) :
@@ -38,36 +63,53 @@ theorem returns_to_zero (rules : List Rule) (ops : List Op) (hall : (run (init r
   rw [cell_eq_live rules ops t ht hev v hv, hall]
   simp [liveOf]
 
+/-- no step changes the rules of the controllers -/
+theorem step_rules (s : St) (op : Op) : (step s op).tcs.map (·.rule) = s.tcs.map (·.rule) := by
+  cases op with
+  | entry id res a at' =>
+    simp only [step]; split
+    · rfl
+    · unfold entry; split
+      · rfl
+      · dsimp only; split
+        · exact checkTcs_rules ..
+        · simp only [List.map_map]
+          rw [← checkTcs_rules res a at' s.tcs]
+          apply List.map_congr_left
+          intro t _; simp
+  | exit id =>
+    simp only [step]; unfold exit; split
+    · rfl
+    · simp only [List.map_map]
+      apply List.map_congr_left
+      intro t _; simp
+  | flowBlock res => rfl
+  | check id res a at' =>
+    simp only [step]; split
+    · rfl
+    · unfold check; split
+      · rfl
+      · exact checkTcs_rules ..
+  | commit id =>
+    simp only [step]; unfold commit; split
+    · rfl
+    · split
+      · simp only [List.map_map]
+        apply List.map_congr_left
+        intro t _; simp
+      · rfl
+
+theorem run_rules (s : St) (ops : List Op) : (run s ops).tcs.map (·.rule) = s.tcs.map (·.rule) := by
+  induction ops generalizing s with
+  | nil => rfl
+  | cons op ops ih =>
+    show (run (step s op) ops).tcs.map (·.rule) = _
+    rw [ih, step_rules]
+
 /-- the controllers of a reachable state are, in order, those of the valid rules that were loaded -/
 theorem rules_fixed (rules : List Rule) (ops : List Op) :
     (run (init rules) ops).tcs.map (·.rule) = rules.filter Rule.valid := by
-  have key : ∀ (s : St) (ops : List Op), (run s ops).tcs.map (·.rule) = s.tcs.map (·.rule) := by
-    intro s ops
-    induction ops generalizing s with
-    | nil => rfl
-    | cons op ops ih =>
-      show (run (step s op) ops).tcs.map (·.rule) = _
-      rw [ih]
-      cases op with
-      | entry id res a at' =>
-        simp only [step]; split
-        · rfl
-        · unfold entry; split
-          · rfl
-          · dsimp only; split
-            · exact checkTcs_rules ..
-            · simp only [List.map_map]
-              rw [← checkTcs_rules res a at' s.tcs]
-              apply List.map_congr_left
-              intro t _; simp
-      | exit id =>
-        simp only [step]; unfold exit; split
-        · rfl
-        · simp only [List.map_map]
-          apply List.map_congr_left
-          intro t _; simp
-      | flowBlock res => rfl
-  rw [key]
+  rw [run_rules]
   simp [init, load, List.map_map, Function.comp_def]
 
 /-- exiting every live entry (in any order the ledger lists them) empties the ledger -/
@@ -134,7 +176,7 @@ theorem admit_iff_partial (rules : List Rule) (ops : List Op) (id res : String) 
       (¬ res ∈ (run (init rules) ops).fb ∧
        ∀ t ∈ (run (init rules) ops).tcs, t.rule.sel res a at' ≠ Val.nil →
          (liveOf t.rule (t.rule.sel res a at') (run (init rules) ops).live : Int) < t.rule.thrOf (t.rule.sel res a at')) := by
-  have hinv := inv_run _ ops (inv_init rules)
+  have hinv := (inv_run _ ops (inv_init rules)).1
   generalize run (init rules) ops = s at *
   unfold entry
   by_cases hfb : s.fb.contains res = true
@@ -257,18 +299,27 @@ theorem admitted_counted (s : St) (id res : String) (a : List Val) (at' : List (
     · simp only [h1, h2, Bool.false_eq_true, if_false]
 
 /-- **the arguments of a live entry are the ones it was created with** (observation `Input.Args` of live entries):
-every entry of the ledger stems from an `entry` op of the history with exactly these arguments -/
+every entry of the ledger stems from an `entry` (or two-step `check`) op of the history with exactly these arguments,
+and so does every parked entry -/
 theorem args_stable (rules : List Rule) (ops : List Op) :
-    ∀ e ∈ (run (init rules) ops).live, Op.entry e.id e.res e.args e.atts ∈ ops := by
-  have key : ∀ (ops : List Op) (s : St), ∀ e ∈ (run s ops).live,
-      e ∈ s.live ∨ Op.entry e.id e.res e.args e.atts ∈ ops := by
+    ∀ e ∈ (run (init rules) ops).live,
+      Op.entry e.id e.res e.args e.atts ∈ ops ∨ Op.check e.id e.res e.args e.atts ∈ ops := by
+  have key : ∀ (ops : List Op) (s : St),
+      (∀ e ∈ (run s ops).live, e ∈ s.live ∨ (∃ p ∈ s.pend, p.id = e.id ∧ p.res = e.res ∧ p.args = e.args ∧ p.atts = e.atts) ∨
+        Op.entry e.id e.res e.args e.atts ∈ ops ∨ Op.check e.id e.res e.args e.atts ∈ ops) ∧
+      (∀ p ∈ (run s ops).pend, p ∈ s.pend ∨ Op.check p.id p.res p.args p.atts ∈ ops) := by
     intro ops
     induction ops with
-    | nil => intro s e he; exact Or.inl he
+    | nil => intro s; exact ⟨fun e he => Or.inl he, fun p hp => Or.inl hp⟩
     | cons op ops ih =>
-      intro s e he
-      rcases ih (step s op) e he with h | h
-      · cases op with
+      intro s
+      obtain ⟨ih1, ih2⟩ := ih (step s op)
+      -- what one step does to the ledger and to the parked entries
+      have hl : ∀ e ∈ (step s op).live, e ∈ s.live ∨
+          (∃ p ∈ s.pend, p.id = e.id ∧ p.res = e.res ∧ p.args = e.args ∧ p.atts = e.atts) ∨
+          op = Op.entry e.id e.res e.args e.atts := by
+        intro e h
+        cases op with
         | entry id res a at' =>
           simp only [step] at h
           split at h
@@ -276,7 +327,7 @@ theorem args_stable (rules : List Rule) (ops : List Op) :
           · by_cases hp : (entry s id res a at').2 = Res.pass
             · rw [admitted_counted s id res a at' hp] at h
               rcases List.mem_cons.mp h with rfl | h
-              · exact Or.inr (List.mem_cons_self ..)
+              · exact Or.inr (Or.inr rfl)
               · exact Or.inl h
             · rw [blocked_not_counted s id res a at' hp] at h
               exact Or.inl h
@@ -287,11 +338,276 @@ theorem args_stable (rules : List Rule) (ops : List Op) :
           · exact Or.inl h
           · exact Or.inl (List.mem_of_mem_eraseP h)
         | flowBlock res => exact Or.inl h
-      · exact Or.inr (List.mem_cons_of_mem _ h)
+        | check id res a at' =>
+          simp only [step] at h
+          split at h
+          · exact Or.inl h
+          · unfold check at h; split at h <;> exact Or.inl h
+        | commit id =>
+          simp only [step] at h
+          unfold commit at h
+          split at h
+          · exact Or.inl h
+          · rename_i p hf
+            split at h
+            · rcases List.mem_cons.mp h with rfl | h
+              · exact Or.inr (Or.inl ⟨p, find_mem _ _ _ hf, rfl, rfl, rfl, rfl⟩)
+              · exact Or.inl h
+            · exact Or.inl h
+      have hpd : ∀ p ∈ (step s op).pend, p ∈ s.pend ∨ op = Op.check p.id p.res p.args p.atts := by
+        intro p h
+        cases op with
+        | entry id res a at' =>
+          simp only [step] at h
+          split at h
+          · exact Or.inl h
+          · unfold entry at h
+            split at h
+            · exact Or.inl h
+            · dsimp only at h; split at h <;> exact Or.inl h
+        | exit id =>
+          simp only [step] at h
+          unfold exit at h
+          split at h <;> exact Or.inl h
+        | flowBlock res => exact Or.inl h
+        | check id res a at' =>
+          simp only [step] at h
+          split at h
+          · exact Or.inl h
+          · unfold check at h
+            split at h
+            · rcases List.mem_cons.mp h with rfl | h
+              · exact Or.inr rfl
+              · exact Or.inl h
+            · dsimp only at h
+              rcases List.mem_cons.mp h with rfl | h
+              · exact Or.inr rfl
+              · exact Or.inl h
+        | commit id =>
+          simp only [step] at h
+          unfold commit at h
+          split at h
+          · exact Or.inl h
+          · split at h <;> exact Or.inl (List.mem_of_mem_eraseP h)
+      refine ⟨?_, ?_⟩
+      · intro e he
+        rcases ih1 e he with h | ⟨p, hp, h1, h2, h3, h4⟩ | h | h
+        · rcases hl e h with h | h | h
+          · exact Or.inl h
+          · exact Or.inr (Or.inl h)
+          · exact Or.inr (Or.inr (Or.inl (h ▸ List.mem_cons_self ..)))
+        · rcases hpd p hp with h | h
+          · exact Or.inr (Or.inl ⟨p, h, h1, h2, h3, h4⟩)
+          · refine Or.inr (Or.inr (Or.inr ?_))
+            rw [← h1, ← h2, ← h3, ← h4, ← h]; exact List.mem_cons_self ..
+        · exact Or.inr (Or.inr (Or.inl (List.mem_cons_of_mem _ h)))
+        · exact Or.inr (Or.inr (Or.inr (List.mem_cons_of_mem _ h)))
+      · intro p hp
+        rcases ih2 p hp with h | h
+        · rcases hpd p h with h | h
+          · exact Or.inl h
+          · exact Or.inr (h ▸ List.mem_cons_self ..)
+        · exact Or.inr (List.mem_cons_of_mem _ h)
   intro e he
-  rcases key ops (init rules) e he with h | h
+  rcases (key ops (init rules)).1 e he with h | ⟨p, hp, _⟩ | h
   · simp [init, load] at h
+  · simp [init, load] at hp
   · exact h
+
+/-! ## the cap -/
+
+/-- a sequential history: every `api.Entry` runs to completion before the next op (no parked goroutines) -/
+def sequential : Op → Bool
+  | .check .. => false
+  | .commit .. => false
+  | _ => true
+
+theorem liveOf_eraseP_le (r : Rule) (v : Val) (q : Live → Bool) (L : List Live) :
+    liveOf r v (L.eraseP q) ≤ liveOf r v L := by
+  unfold liveOf
+  exact (List.eraseP_sublist (l := L)).countP_le
+
+/-- the cap as a state invariant -/
+def Capped (s : St) : Prop :=
+  ∀ t ∈ s.tcs, t.ev = false → ∀ v, v ≠ Val.nil → (liveOf t.rule v s.live : Int) ≤ t.rule.thrOf v
+
+theorem capped_step (s : St) (op : Op) (hseq : sequential op = true) (hinv : Inv s) (hc : Capped s)
+    (hpos : ∀ t ∈ s.tcs, ∀ v, 0 < t.rule.thrOf v) : Capped (step s op) := by
+  cases op with
+  | check => simp [sequential] at hseq
+  | commit => simp [sequential] at hseq
+  | flowBlock res => exact hc
+  | exit id =>
+    simp only [step]; unfold exit
+    split
+    · exact hc
+    · intro t' ht' hev v hv
+      simp only [List.mem_map] at ht'
+      obtain ⟨t, hm, rfl⟩ := ht'
+      rw [bump_ev] at hev
+      rw [bump_rule]
+      have := hc t hm hev v hv
+      have h2 := liveOf_eraseP_le t.rule v (fun e => e.id == id) s.live
+      show (liveOf t.rule v (s.live.eraseP _) : Int) ≤ _
+      omega
+  | entry id res a at' =>
+    simp only [step]
+    split
+    · exact hc
+    · by_cases hp : (entry s id res a at').2 = Res.pass
+      · -- admitted: every controller selecting a value had room for it
+        have hlive := admitted_counted s id res a at' hp
+        have hb : (checkTcs res a at' s.tcs).2 = false := by
+          unfold entry at hp
+          by_cases h1 : s.fb.contains res = true
+          · simp only [h1, if_true] at hp; cases hp
+          · by_cases h2 : (checkTcs res a at' s.tcs).2 = true
+            · simp only [h1, h2, Bool.false_eq_true, if_false, if_true] at hp; cases hp
+            · simpa using h2
+        have htcs : (entry s id res a at').1.tcs =
+            (s.tcs.map (fun t => t.touchFor res a at')).map (fun t => t.bump res a at' 1) := by
+          unfold entry
+          by_cases h1 : s.fb.contains res = true
+          · unfold entry at hp; simp only [h1, if_true] at hp; cases hp
+          · simp only [h1, hb, Bool.false_eq_true, if_false]
+            rw [checkTcs_pass res a at' s.tcs hb]
+        intro t' ht' hev v hv
+        rw [htcs] at ht'
+        simp only [List.map_map, List.mem_map, Function.comp] at ht'
+        obtain ⟨t, hm, rfl⟩ := ht'
+        rw [bump_ev] at hev
+        have hev0 := touchFor_ev t res a at' hev
+        rw [bump_rule, touchFor_rule, hlive, liveOf_cons]
+        have h0 := hc t hm hev0 v hv
+        by_cases hs : t.rule.sel res a at' = v
+        · -- this controller selected `v`: it did not object, so there was room
+          have hnv : t.violates res a at' = false := by
+            have := checkTcs_blocked res a at' s.tcs
+            rw [hb] at this
+            exact (List.any_eq_false.mp this.symm) t hm |> fun h => by simpa using h
+          have hvi := violates_iff t s.live res a at' (hinv.1 t hm) hev0 (fun _ => Or.inr (hpos t hm _))
+          have : ¬ (t.rule.sel res a at' ≠ Val.nil ∧
+              ¬ (liveOf t.rule (t.rule.sel res a at') s.live : Int) < t.rule.thrOf (t.rule.sel res a at')) := by
+            intro hcon; have := hvi.mpr hcon; rw [hnv] at this; cases this
+          rw [hs] at this
+          have hlt : (liveOf t.rule v s.live : Int) < t.rule.thrOf v := by
+            by_contra hcon; exact this ⟨hv, hcon⟩
+          simp only [hs, if_true]
+          push_cast; omega
+        · simp only [hs, if_false, Nat.add_zero]; exact h0
+      · -- not admitted: the ledger is unchanged, controllers were at most touched
+        have hlive := blocked_not_counted s id res a at' hp
+        intro t' ht' hev v hv
+        rw [hlive]
+        have : ∃ t ∈ s.tcs, Keeps t t' := by
+          unfold entry at ht'
+          by_cases h1 : s.fb.contains res = true
+          · simp only [h1, if_true] at ht'; exact ⟨t', ht', keeps_refl _⟩
+          · by_cases h2 : (checkTcs res a at' s.tcs).2 = true
+            · simp only [h1, h2, Bool.false_eq_true, if_false, if_true] at ht'
+              exact checkTcs_keeps res a at' s.tcs t' ht'
+            · unfold entry at hp; simp only [h1, h2, Bool.false_eq_true, if_false] at hp
+              exact absurd trivial hp
+        obtain ⟨t, hm, hr, hk⟩ := this
+        rw [hr]
+        exact hc t hm (hk hev).1 v hv
+
+/-- **C06, the cap.** In every sequential history (entries and exits in any order, any values, blocked entries and
+entries blocked by another slot in between) over rules whose thresholds are all positive, a controller that has not
+evicted never has more entries in flight for a value than the threshold configured for that value. (Threshold 0:
+`first_touch_witness`; beyond the capacity: `evict_witness`; goroutines racing through the check: `overshoot_witness`.) -/
+theorem capped_sequential (rules : List Rule) (ops : List Op) (hseq : ∀ op ∈ ops, sequential op = true)
+    (hpos : ∀ r ∈ rules, ∀ v, 0 < r.thrOf v) :
+    ∀ t ∈ (run (init rules) ops).tcs, t.ev = false → ∀ v, v ≠ Val.nil →
+      (liveOf t.rule v (run (init rules) ops).live : Int) ≤ t.rule.thrOf v := by
+  have key : ∀ (ops : List Op) (s : St), (∀ op ∈ ops, sequential op = true) → Inv s → Capped s →
+      (∀ t ∈ s.tcs, ∀ v, 0 < t.rule.thrOf v) → Capped (run s ops) := by
+    intro ops
+    induction ops with
+    | nil => intro s _ _ hc _; exact hc
+    | cons op ops ih =>
+      intro s hseq hinv hc hp
+      apply ih (step s op) (fun o ho => hseq o (List.mem_cons_of_mem _ ho)) (inv_step s op hinv)
+        (capped_step s op (hseq op (List.mem_cons_self ..)) hinv hc hp)
+      intro t ht
+      have : t.rule ∈ (step s op).tcs.map (·.rule) := List.mem_map_of_mem ht
+      rw [step_rules] at this
+      obtain ⟨t0, ht0, hr⟩ := List.mem_map.mp this
+      rw [← hr]; exact hp t0 ht0
+  apply key ops (init rules) hseq (inv_init rules)
+  · intro t ht _ v _
+    have : t.rule ∈ rules.filter Rule.valid := by
+      simp only [init, load, List.mem_map] at ht
+      obtain ⟨r, hr, rfl⟩ := ht; exact hr
+    have h := hpos _ (List.mem_of_mem_filter this) v
+    simp only [init, load, liveOf, List.countP_nil, Nat.cast_zero]
+    omega
+  · intro t ht v
+    have : t.rule ∈ rules.filter Rule.valid := by
+      simp only [init, load, List.mem_map] at ht
+      obtain ⟨r, hr, rfl⟩ := ht; exact hr
+    exact hpos _ (List.mem_of_mem_filter this) v
+
+/-! ## schedules -/
+
+/-- a sequential `api.Entry` is the two steps run back to back -/
+theorem entry_eq_check_commit (s : St) (id res : String) (a : List Val) (at' : List (String × Val)) :
+    (commit (check s id res a at') id).2 = some (entry s id res a at').2 ∧
+    (commit (check s id res a at') id).1.tcs = (entry s id res a at').1.tcs ∧
+    (commit (check s id res a at') id).1.live = (entry s id res a at').1.live ∧
+    (commit (check s id res a at') id).1.pend = s.pend := by
+  by_cases h1 : s.fb.contains res = true
+  · have hc : check s id res a at' =
+        { s with pend := { id := id, res := res, args := a, atts := at', verdict := Res.blockFlow } :: s.pend } := by
+      simp only [check, h1, if_true]
+    have he : entry s id res a at' = (s, Res.blockFlow) := by simp only [entry, h1, if_true]
+    rw [hc, he]
+    simp [commit, List.find?, List.eraseP]
+  · by_cases h2 : (checkTcs res a at' s.tcs).2 = true
+    · have hc : check s id res a at' =
+          { s with tcs := (checkTcs res a at' s.tcs).1,
+                   pend := { id := id, res := res, args := a, atts := at', verdict := Res.blockHot } :: s.pend } := by
+        simp only [check, h1, h2, Bool.false_eq_true, if_false, if_true]
+      have he : entry s id res a at' = ({ s with tcs := (checkTcs res a at' s.tcs).1 }, Res.blockHot) := by
+        simp only [entry, h1, h2, Bool.false_eq_true, if_false, if_true]
+      rw [hc, he]
+      simp [commit, List.find?, List.eraseP]
+    · have hc : check s id res a at' =
+          { s with tcs := (checkTcs res a at' s.tcs).1,
+                   pend := { id := id, res := res, args := a, atts := at', verdict := Res.pass } :: s.pend } := by
+        simp only [check, h1, h2, Bool.false_eq_true, if_false]
+      have he : entry s id res a at' =
+          ({ s with tcs := (checkTcs res a at' s.tcs).1.map (fun t => t.bump res a at' 1),
+                    live := { id := id, res := res, args := a, atts := at' } :: s.live }, Res.pass) := by
+        simp only [entry, h1, h2, Bool.false_eq_true, if_false]
+      rw [hc, he]
+      simp [commit, List.find?, List.eraseP]
+
+/-- **admission under any schedule**: whatever interleaving of check / commit / exit steps of any number of
+goroutines led to the state, the verdict fixed by a `check` step is "pass" iff no other slot blocks and, for every rule
+selecting a value `v`, fewer *completed* admissions for `v` are in flight than `v`'s threshold — requests that are
+themselves between their check and their commit are not counted (see `overshoot_witness`). Same proviso as
+`admit_iff_partial`. -/
+theorem check_verdict_iff (rules : List Rule) (ops : List Op) (id res : String) (a : List Val) (at' : List (String × Val))
+    (hev : ∀ t ∈ (run (init rules) ops).tcs, t.ev = false)
+    (hp : ∀ t ∈ (run (init rules) ops).tcs, t.rule.sel res a at' ≠ Val.nil →
+      (t.cache.lookup (t.rule.sel res a at')).isSome = true ∨ 0 < t.rule.thrOf (t.rule.sel res a at')) :
+    (commit (check (run (init rules) ops) id res a at') id).2 = some Res.pass ↔
+      (¬ res ∈ (run (init rules) ops).fb ∧
+       ∀ t ∈ (run (init rules) ops).tcs, t.rule.sel res a at' ≠ Val.nil →
+         (liveOf t.rule (t.rule.sel res a at') (run (init rules) ops).live : Int) < t.rule.thrOf (t.rule.sel res a at')) := by
+  rw [(entry_eq_check_commit _ id res a at').1, ← admit_iff_partial rules ops id res a at' hev hp]
+  simp
+
+/-- known finding `check-then-act-overshoot`: threshold 1; two goroutines run their checks before either has run
+its statistic slot: both are admitted, two entries for one value are in flight (the cells stay exact: 2). -/
+def raceOps : List Op :=
+  [.check "e1" "r" [Val.str "a"] [], .check "e2" "r" [Val.str "a"] [], .commit "e1", .commit "e2"]
+
+theorem overshoot_witness :
+    liveOf { res := "r", thr := 1 } (Val.str "a") (run (init [{ res := "r", thr := 1 }]) raceOps).live = 2 ∧
+    (run (init [{ res := "r", thr := 1 }]) raceOps).tcs.map (fun t => cellOf t.cache (Val.str "a")) = [2] ∧
+    ({ res := "r", thr := 1 } : Rule).thrOf (Val.str "a") = 1 := by decide
 
 /-! ## deviations of the code from the statement (faithful model, concrete witnesses) -/
 
